@@ -106,6 +106,47 @@ def _f(params, shard, nshards, seed):
     return out
 
 
+@family('c09_rerun')
+def _f(params, shard, nshards, seed):
+    """a failing doctest with skipped parts before the failing one, run SEVERAL TIMES as the same object (a flaky-style
+    rerun): every run must report the failure, in pytest and native mode"""
+    from ..gen import doctests as gd
+    out = []
+    i = 0
+    for nskip in (1, 2):
+        for nrun in (0, 1, 2):
+            for fault in ('wrong-output', 'exception'):
+                for oe in ('return', 'raise'):
+                    for pm in (False, True):
+                        if i % nshards == shard:
+                            groups = []
+                            k = 0
+                            for _ in range(nskip):
+                                g = gd.Group('print', k, inline=['+SKIP'])
+                                g.want = 'never checked'
+                                groups.append(g)
+                                k += 1
+                            for _ in range(nrun):
+                                g = gd.Group('print', k)
+                                g.want = g.out.rstrip('\n')
+                                groups.append(g)
+                                k += 1
+                            if fault == 'wrong-output':
+                                g = gd.Group('print', k)
+                                g.want = 'not the output'
+                                kind = 'gotwant'
+                            else:
+                                g = gd.Group('raise', k)
+                                kind = 'exception'
+                            groups.append(g)
+                            T = [x.k for x in groups if not x.inline]
+                            out.append({'text': gd.render(groups), 'run': {'on_error': oe, 'verbose': 0, 'pytest_mode': pm},
+                                        'expect': {'pfs': '010', 'kind': kind, 'T': T}, 'rerun': True,
+                                        'desc': {'family': 'rerun', 'nskip': nskip, 'nrun': nrun, 'fault': fault}, 'groups': groups})
+                        i += 1
+    return out
+
+
 def _worker(args):
     name, params, shard, nshards, seed = args
     scs = FAMILIES[name](params, shard, nshards, seed)
@@ -149,4 +190,78 @@ def replay_scenario(failing):
     print('text:\n' + inp['text'])
     print('observed now: %r' % (now,))
     print('expected    : %r' % ({k: exp.get(k) for k in ('pfs', 'kind', 'T')},))
+    if not bad:
+        # the same object run again and again
+        again = runloop.rerun_check({'text': inp['text'], 'run': inp.get('run', {})}, o)
+        for w in again:
+            print('rerun       : ' + w)
+        bad.extend(again)
+    return bool(bad)
+
+
+# ---------------------------------------------------------------------------------------------
+MODULE2 = """
+def first():
+    \"\"\"
+    Example:
+%s
+    \"\"\"
+
+
+def second():
+    \"\"\"
+    Example:
+%s
+    \"\"\"
+"""
+
+
+def module_level_cases(ctx, corr, suite, cases, defaults_list=({}, {'IGNORE_WHITESPACE': False}, {'NORMALIZE_REPR': True, 'REPORT_UDIFF': True})):
+    """two doctests of one module run by the native runner with user default options (one shared config dict):
+    whatever the FIRST doctest leaves switched on or off by block directives must not reach the SECOND.
+    cases: list of (first_lines, second_lines, expected failed callnames, expected n_skipped)"""
+    import contextlib
+    import io
+    import os
+    import shutil
+    import tempfile
+    import warnings
+    from xdoctest import runner
+    d = tempfile.mkdtemp(prefix='xdocverif-')
+    try:
+        i = 0
+        for first, second, exp_failed, exp_skipped, extra_defaults in cases:
+            for defaults in defaults_list:
+                i += 1
+                dfl = dict(defaults, **(extra_defaults or {}))
+                src = MODULE2 % ('\n'.join('        ' + l for l in first), '\n'.join('        ' + l for l in second))
+                path = os.path.join(d, '%s_mod_%d_%d.py' % (suite.replace('-', '_'), os.getpid(), i))
+                with open(path, 'w') as f:
+                    f.write(src)
+                buf = io.StringIO()
+                inp = {'module_source': src, 'default_runtime_state': dfl}
+                try:
+                    with contextlib.redirect_stdout(buf), warnings.catch_warnings():
+                        warnings.simplefilter('ignore')
+                        rs = runner.doctest_module(path, command='all', verbose=0, argv=[], analysis='static',
+                                                   config={'default_runtime_state': dict(dfl)})
+                    obs = {'failed': sorted(e.callname for e in rs.get('failed', [])), 'n_skipped': rs.get('n_skipped')}
+                except BaseException as e:  # noqa
+                    obs = {'raised': repr(e)}
+                corr.count(suite)
+                corr.nontriv((suite, src, repr(sorted(dfl.items()))))
+                exp = {'failed': sorted(exp_failed), 'n_skipped': exp_skipped}
+                if obs != exp:
+                    corr.expect_fail(suite, inp, exp, obs, 'state left by the first doctest must not reach the second (one shared options dict)')
+    finally:
+        shutil.rmtree(d, ignore_errors=True)
+
+
+def replay_module_level(ctx, failing, suite, cases, **kw):
+    from ..core import Corr
+    c2 = Corr()
+    module_level_cases(ctx, c2, suite, cases, **kw)
+    bad = [e for e in c2.expect_failures if e['input'] == failing['input']]
+    print(failing['input']['module_source'])
+    print('default_runtime_state=%r -> %s' % (failing['input']['default_runtime_state'], bad[0]['impl'] if bad else 'as expected'))
     return bool(bad)
